@@ -99,15 +99,19 @@ Rebind(o) ==
     /\ last' = [st |-> "ok"] /\ UNCHANGED files
     /\ Log([name |-> "Rebind", o |-> o], [st |-> "ok"])
 
-(* frequency slice [l, r): columns l..r-1 of data and axis *)
-Slice(o, l, r) ==
+(* frequency slice [l, r): columns l..r-1 of data and axis.  form: how the caller writes the bounds -- as they are, or
+   Python-style from the end (l - F, r - F): the same columns either way *)
+Slice(o, l, r, form) ==
     /\ Active /\ Room /\ o \in 1..Len(objs) /\ 0 <= l /\ l < r /\ r <= objs[o].F
+    /\ (form \in {"negr", "negboth"} => r < objs[o].F) /\ (form # "pos" => All)
     /\ LET f == objs[o]
            g == [f EXCEPT !.F = r - l, !.lo = f.lo + l, !.tsoff = 0, !.tsgap = 0,
                           !.data = [i \in 1..f.T |-> [j \in 1..r - l |-> f.data[i][l + j]]]] IN
        objs' = Append(objs, g)
     /\ last' = [st |-> "ok"] /\ UNCHANGED files
-    /\ Log([name |-> "Slice", o |-> o, l |-> l, r |-> r], [st |-> "ok"])
+    /\ Log([name |-> "Slice", o |-> o, l |-> l, r |-> r, form |-> form,
+             al |-> IF form \in {"negl", "negboth"} THEN l - objs[o].F ELSE l,
+             ar |-> IF form \in {"negr", "negboth"} THEN r - objs[o].F ELSE r], [st |-> "ok"])
 
 (* de-drift by q quarter-channels per row (signed) *)
 MaxOffset(f, q) == RoundQ(Abs(q) * f.T)
@@ -190,7 +194,7 @@ Next == \/ Done
         \/ \E o \in Os : Mutate(o)
         \/ \E o \in Os, kind \in {"shift", "gap"} : ShiftTs(o, kind)
         \/ \E o \in Os : Rebind(o)
-        \/ \E o \in Os, x \in SliceArgs : Slice(o, x[1], x[2])
+        \/ \E o \in Os, x \in SliceArgs, form \in {"pos", "negl", "negr", "negboth"} : Slice(o, x[1], x[2], form)
         \/ \E o \in Os, q \in DriftArgs : Dedrift(o, q)
         \/ \E o \in Os, axis \in {"t", "f"} : Integrate(o, axis)
         \/ \E o \in Os, fmt \in {"fil", "h5"} : Save(o, fmt)
